@@ -24,16 +24,20 @@ import (
 
 func init() {
 	c20Scenarios = append(c20Scenarios, &c20Scenario{name: "renegrefuse", custom: c20RenegRefuse})
+	c20Scenarios = append(c20Scenarios, &c20Scenario{name: "renegbig", custom: c20RenegBig})
 }
 
-func c20RenegRefuse(r *rng, g, iters int) string {
-	fail := func(why string) string { return "ORACLE-FAIL:" + why + ":renegrefuse" }
+// "renegbig": the same set-up with a CLIENT that allows renegotiation; the peer sends a handshake record whose
+// header announces a message of more than 65536 bytes. The client answers with a fatal internal_error alert from
+// inside Read (Conn.readHandshake), again through the write half that the concurrent Writes are using.
+func c20RenegBig(r *rng, g, iters int) string {
+	fail := func(why string) string { return "ORACLE-FAIL:" + why + ":renegbig" }
 	rounds := 1 + iters/4
 	if rounds > 12 {
 		rounds = 12
 	}
 	for round := 0; round < rounds; round++ {
-		if res := c20RenegRefuseOnce(r, g); res != "" {
+		if res := c20RenegOnce(r, g, true); res != "" {
 			return fail(res)
 		}
 	}
@@ -43,17 +47,37 @@ func c20RenegRefuse(r *rng, g, iters int) string {
 	return "ok"
 }
 
-func c20RenegRefuseOnce(r *rng, g int) string {
+func c20RenegRefuse(r *rng, g, iters int) string {
+	fail := func(why string) string { return "ORACLE-FAIL:" + why + ":renegrefuse" }
+	rounds := 1 + iters/4
+	if rounds > 12 {
+		rounds = 12
+	}
+	for round := 0; round < rounds; round++ {
+		if res := c20RenegOnce(r, g, false); res != "" {
+			return fail(res)
+		}
+	}
+	if atomic.LoadInt32(&c20Panics) != 0 {
+		return fail("panic")
+	}
+	return "ok"
+}
+
+func c20RenegOnce(r *rng, g int, big bool) string {
 	macE, keyE, ivE := r.bytes(32), r.block16(), r.block16() // what E writes under
 	macP, keyP, ivP := r.bytes(32), r.block16(), r.block16() // what the peer writes under
 	a, b := c20Pipe("e", "p", r.pick([]int{0, 0, 1000}))
 	defer a.Close()
 	defer b.Close()
 	suite := gmtls.GMTLS_ECC_SM4_CBC_SM3
-	E := gmtls.VerifEstablished(a, false, suite, macP, keyP, ivP, macE, keyE, ivE, &c20RandReader{r: newRng(r.u64())})
-	P := gmtls.VerifEstablished(b, true, suite, macE, keyE, ivE, macP, keyP, ivP, &c20RandReader{r: newRng(r.u64())})
+	E := gmtls.VerifEstablished(a, big, suite, macP, keyP, ivP, macE, keyE, ivE, &c20RandReader{r: newRng(r.u64())})
+	P := gmtls.VerifEstablished(b, !big, suite, macE, keyE, ivE, macP, keyP, ivP, &c20RandReader{r: newRng(r.u64())})
 	if E == nil || P == nil {
 		return "setup"
+	}
+	if big {
+		E.VerifConfig().Renegotiation = gmtls.RenegotiateFreelyAsClient
 	}
 	seed := r.u64()
 	nW := g / 2
@@ -157,7 +181,12 @@ func c20RenegRefuseOnce(r *rng, g int) string {
 		time.Sleep(time.Duration(r.intn(300)) * time.Microsecond)
 	}
 	time.Sleep(time.Duration(200+r.intn(2000)) * time.Microsecond)
-	b.Write(craftCBCRecord(macP, keyP, 22, uint64(k), r.block16(), []byte{0, 0, 0, 0}, c20MinPad(4)))
+	if big {
+		// HelloRequest header announcing 0x010001 = 65537 bytes
+		b.Write(craftCBCRecord(macP, keyP, 22, uint64(k), r.block16(), []byte{0, 1, 0, 1}, c20MinPad(4)))
+	} else {
+		b.Write(craftCBCRecord(macP, keyP, 22, uint64(k), r.block16(), []byte{0, 0, 0, 0}, c20MinPad(4)))
+	}
 	var rerr error
 	select {
 	case rerr = <-readErr:
@@ -189,11 +218,18 @@ func c20RenegRefuseOnce(r *rng, g int) string {
 	if failure != "" {
 		return failure
 	}
-	if rerr == nil || !strings.Contains(rerr.Error(), "no renegotiation") {
+	want := "no renegotiation"
+	if big {
+		want = "exceeds maximum"
+	}
+	if rerr == nil || !strings.Contains(rerr.Error(), want) {
 		return "read-error-is-not-the-refusal:" + strings.ReplaceAll(errStr(rerr), " ", "_")
 	}
 	if !bytes.Equal(gotApp, sentApp) {
 		return "application-data-before-the-handshake-record-altered"
+	}
+	if big && peerErr != nil && strings.Contains(peerErr.Error(), "remote error") && strings.Contains(peerErr.Error(), "internal error") {
+		peerErr = nil // the fatal alert the client sent: how the peer's stream is meant to end here
 	}
 	if peerErr != nil && peerErr != io.EOF && peerErr != io.ErrClosedPipe && peerErr != io.ErrUnexpectedEOF {
 		return "peer-rejects-a-record:" + strings.ReplaceAll(peerErr.Error(), " ", "_")
